@@ -172,6 +172,8 @@ func ProfileByName(name string) *Profile {
 		p.IgnoreCase = 25
 		p.CharAlt = 30
 		p.RuleLabels = true
+		p.PredAct = 35
+		p.W[KAnd], p.W[KNot] = 6, 6
 		p.Throw = true // Walk handles recovery / throw nodes since fix 0c660c6
 		p.W[KRec], p.W[KThrow] = 3, 3
 		p.NoStaleCtx = true
@@ -184,6 +186,7 @@ func ProfileByName(name string) *Profile {
 		p.W[KStC] = 8
 		p.Inputs = 8
 		p.MemoPct = 40
+		p.StatsPct = 35
 		p.NoStaleCtx = true
 	}
 	return p
